@@ -756,7 +756,8 @@ struct TemplateCore {
                         ++offset;
                     }
 
-                    if (offset < end_offset) {
+                    // Level is 8 bits wide: a loop under more than 255 open tags would share the slot of an outer loop.
+                    if ((offset < end_offset) && (parent_storage.Size() <= SizeT{0xFF})) {
                         LoopTag *tag = (storage->Insert(TagBit{})).MakeLoopTag();
                         tag->Offset  = loop_offset;
                         tag->Parent  = loop_tag;
